@@ -145,6 +145,50 @@ pub fn generate(out: &mut Out, seed: u64, thorough: bool) {
             }
         }
     }
+    // ---- resizes through cropped views (band splitting of cropped sources / destinations: the split of a view
+    //      delegates to the wrapped image with the view's own offsets)
+    {
+        use crate::rcase::*;
+        use crate::views::*;
+        let nview = if thorough { 400 } else { 90 };
+        for i in 0..nview {
+            let pt = ALL_TYPES[i % 13];
+            let (sw, sh) = (rng.range(40, 220) as u32, rng.range(40, 220) as u32);
+            let (dw, dh) = (rng.range(40, 260) as u32, rng.range(40, 260) as u32);
+            let mode = rng.below(3);
+            let fi = rng.below(7) as usize;
+            let mut case = Case {
+                pt,
+                ext_name: "default",
+                ext: fir::CpuExtensions::default(),
+                sshape: placements(sw, sh, rng.range(2, 4) as usize),
+                dshape: placements(dw, dh, rng.below(PLACEMENTS as u64) as usize),
+                alg: if rng.chance(1, 5) { AlgSpec::nearest() } else { AlgSpec::conv(fi) },
+                crop: CropSpec::None,
+                alpha: rng.chance(1, 2),
+                sbuf: Vec::new(),
+                dynamic: false,
+                custom: None,
+            };
+            case.sbuf = random_comps(&mut rng, pt, case.sshape.buf_len(), mode);
+            let reference = catch(|| in_pool(1, || run_case(&case, 0xA5)));
+            for &threads in &[2usize, 3, 8, 16] {
+                let got = catch(|| in_pool(threads, || run_case(&case, 0xA5)));
+                let (outcome, equal) = match (&reference, &got) {
+                    (Ok(a), Ok(b)) => (if b.starts_with("panic") { b.chars().take(120).collect::<String>() } else { "ok".to_string() }, a == b),
+                    (_, Err(p)) => (format!("panic:{}", p.replace(' ', "_")), false),
+                    (Err(p), _) => (format!("refpanic:{}", p.replace(' ', "_")), false),
+                };
+                out.count(&format!("views:threads={}", threads));
+                let line = format!(
+                    "threads kind=resize-views:{}:{} pt={} src={}x{} dst={}x{} alg={} alpha={} threads={} outcome={} equal={}",
+                    case.sshape.desc(), case.dshape.desc(), pt_name(pt), sw, sh, dw, dh, case.alg.name, case.alpha as u8, threads, outcome, equal as u8
+                );
+                let k = fnv(line.as_bytes());
+                out.push(line, Some(k));
+            }
+        }
+    }
     // ---- alpha operations under pools
     for &pt in ALPHA_TYPES.iter() {
         for &(w, h) in &[(1u32, 65536u32), (65537, 1), (33, 77), (256, 256), (1, 1), (5, 300)] {
